@@ -481,7 +481,9 @@ func (cr *c14hRunner) run(jobs []c14hJob) (c14hOut, error) {
 	}
 	defer os.Remove(path)
 	defer os.Remove(path + ".out")
-	cmd := exec.Command(os.Args[0], "C14hist", "-replay", path, "-driver", h.DriverPath)
+	cctx, cancel := context.WithTimeout(context.Background(), 5*time.Minute)
+	defer cancel()
+	cmd := exec.CommandContext(cctx, os.Args[0], "C14hist", "-replay", path, "-driver", h.DriverPath)
 	if o, err := cmd.CombinedOutput(); err != nil {
 		return c14hOut{}, fmt.Errorf("history child: %v: %s", err, trunc(string(o), 400))
 	}
